@@ -1141,6 +1141,9 @@ def to_dict(x: Domain) -> Dict[str, Any]:
         "domain_kwargs": domain_kwargs,
     }
     sampler = x.get_sampler()
+    if isinstance(sampler, Quantized):
+        result["quantization"] = sampler.q
+        sampler = sampler.get_sampler()
     if sampler is not None:
         result.update({"sampler_cls": str(sampler), "sampler_kwargs": sampler.__dict__})
     return result
@@ -1159,6 +1162,8 @@ def from_dict(d: Dict[str, Any]) -> Domain:
         sampler_kwargs = d["sampler_kwargs"]
         sampler = sampler_cls(**sampler_kwargs)
         domain.set_sampler(sampler)
+    if "quantization" in d:
+        domain = domain.quantized(d["quantization"])
     return domain
 
 
